@@ -4,7 +4,7 @@ Confirms the mutant in a scratch worktree of /repo (patch applies, builds, the e
 library packages pass, the demo fails with the patch and passes without), then runs the given checks
 against the patched tree (VERIF_REPO), never touching /repo. Prints a JSON summary."""
 import json, os, subprocess, sys, shutil, re, time
-md = os.path.abspath(sys.argv[1]); props = sys.argv[2:]
+md = os.path.abspath(sys.argv[1]); props = [a for a in sys.argv[2:] if not a.startswith("--")]
 env = dict(os.environ, GOFLAGS="-mod=mod", GOPROXY="off", GOSUMDB="off", GOTOOLCHAIN="local", GOWORK="off")
 wt = f"/tmp/wt-eval-{os.getpid()}"
 def sh(cmd, cwd=None, timeout=1800):
